@@ -94,7 +94,7 @@ def map_fns(tag, cxx):
                (r'^reserve\|std::vector<std::shared_future<void>', 'nv_section_reserve({self}, {0})'),
                (r'^emplace_back\|std::vector<std::shared_future<void>', 'nv_section_emplace_back({self}, {0})'),
                (r'^notify_all\|std::condition_variable', 'nv_notify_all'),
-               (r'^block\|nano::parallel::section_t', 'nv_section_block({self}, {0})!')]
+               (r'^block\|nano::parallel::section_t', 'nv_section_block({self}, {0})!')] + FUT_MEMBERS[2:6]     # swap / clear / empty / size
     calls_c = LOCKS + [(r'^min\|', 'nv_min({0}, {1})'), (r'^operator\(\)\|void \(\w[\w ]*, \w[\w ]*, size_t\) const\|nvdrv::op_range_t', 'nv_op_range({&0}, {1}, {2}, {3})')]
     calls_i = LOCKS + [(r'^operator\(\)\|void \(\w[\w ]*, size_t\) const\|nvdrv::op_index_t', 'nv_op_index({&0}, {1}, {2})')]
     flt = 'nano::parallel::pool_t::map'
@@ -172,7 +172,9 @@ def build(tier):
         H = f'specs/C17/map_{tag}.h'
         chunk, index = map_fns(tag, cxx)
         tc, ti = task_fns(tag, cxx, cty)
-        targets += [Target(f'map_chunk_{tag}', [chunk, pool_size()], H), Target(f'map_index_{tag}', [index, pool_size()], H),
+        SR = ['section_block', 'section_dtor']     # the real block / ~section_t, called through their contracts (section.h)
+        targets += [Target(f'map_chunk_{tag}', [chunk, pool_size()] + list(section_fns()), H, replace=SR),
+                    Target(f'map_index_{tag}', [index, pool_size()] + list(section_fns()), H, replace=SR),
                     Target(f'map_chunk_task_{tag}', [tc], H), Target(f'map_index_task_{tag}', [ti], H)]
     targets += other_targets()
     import count_smt
